@@ -439,6 +439,9 @@ func checkC19(c *run.Ctx) {
 	sh, err := c19BuildShared(uint64(c.Seed), kp)
 	must(c, err)
 	var inflight, maxInflight int64
+	var inflightMask uint64
+	var overlap [17][17]int64
+	var opCount [17]int64
 	opNames := map[string]int{}
 	var mu sync.Mutex
 	c.Phase("shared", func() {
@@ -461,6 +464,20 @@ func checkC19(c *run.Ctx) {
 					<-start
 					for k := 0; k < 12; k++ {
 						op := r.IntN(17)
+						// which observers are in flight right now? (evidence of the overlaps actually achieved)
+						mask := atomic.LoadUint64(&inflightMask)
+						for o := 0; o < 17; o++ {
+							if mask&(1<<uint(o)) != 0 {
+								atomic.AddInt64(&overlap[op][o], 1)
+							}
+						}
+						atomic.AddInt64(&opCount[op], 1)
+						for {
+							m := atomic.LoadUint64(&inflightMask)
+							if atomic.CompareAndSwapUint64(&inflightMask, m, m|1<<uint(op)) {
+								break
+							}
+						}
 						n := atomic.AddInt64(&inflight, 1)
 						for {
 							m := atomic.LoadInt64(&maxInflight)
@@ -470,6 +487,14 @@ func checkC19(c *run.Ctx) {
 						}
 						name, bad := sh.observe(op, r)
 						atomic.AddInt64(&inflight, -1)
+						if atomic.AddInt64(&opCount[op], -1) == 0 {
+							for {
+								m := atomic.LoadUint64(&inflightMask)
+								if atomic.CompareAndSwapUint64(&inflightMask, m, m&^(1<<uint(op))) {
+									break
+								}
+							}
+						}
 						mu.Lock()
 						opNames[name]++
 						mu.Unlock()
@@ -493,6 +518,17 @@ func checkC19(c *run.Ctx) {
 		c.Feature("shared", n)
 	}
 	c.Max("max_simultaneous_observers", maxInflight)
+	pairs, events := 0, int64(0)
+	for a := 0; a < 17; a++ {
+		for b := 0; b < 17; b++ {
+			if overlap[a][b] > 0 {
+				pairs++
+				events += overlap[a][b]
+			}
+		}
+	}
+	c.Count("distinct_overlapping_observer_kind_pairs_observed", pairs)
+	c.Count("observer_overlap_events", int(events))
 	c.Count("rounds", rounds)
 
 	// ---- (C) observers do not mutate (sequential, deep state before/after)
